@@ -22,4 +22,6 @@ def run(rep, fb, tier):
     _pr4.rule_py_defassign(rep)
     from ..rules import pybind as _pb2
     _pb2.rule_py_layout_attrs(rep)
+    from ..rules import pyrules as _pr5
+    _pr5.rule_py_call_shape(rep)
     rep.units = fb.units + ["src/awkward/_connect/_numba/*.py, _libawkward.py (ast)"]
